@@ -475,10 +475,22 @@ impl LangGen {
             10 => {
                 self.tag("apply");
                 let l = self.expr(Ty::List, cx, d);
-                if self.rng.chance(1, 2) {
-                    format!("(apply + {})", l)
-                } else {
-                    format!("(apply + {} {} {})", self.expr(Ty::Int, cx, d), self.expr(Ty::Int, cx, d), l)
+                match self.rng.below(4) {
+                    0 => format!("(apply + {})", l),
+                    1 => format!("(apply + {} {} {})", self.expr(Ty::Int, cx, d), self.expr(Ty::Int, cx, d), l),
+                    2 => {
+                        // several leading arguments, a receiver that is sensitive to their order
+                        self.tag("apply-leading-args");
+                        let k = 2 + self.rng.below(3);
+                        let lead: Vec<String> = (0..k).map(|_| self.expr(Ty::Int, cx, 0)).collect();
+                        format!("(apply - {} '({}))", lead.join(" "), if self.rng.chance(1, 2) { "" } else { "1 2" })
+                    }
+                    _ => {
+                        self.tag("apply-leading-args");
+                        let k = 2 + self.rng.below(3);
+                        let lead: Vec<String> = (0..k).map(|_| self.expr(Ty::Int, cx, 0)).collect();
+                        format!("(car (apply list {} {}))", lead.join(" "), l)
+                    }
                 }
             }
             11 => {
